@@ -33,11 +33,11 @@ for alpha >= 1e4, so 1e-9 is attainable by a correct implementation; nothing her
 The maximal observed error of every quantity is written to the notes.
 
 Input space (seeded; deterministic for a given seed)
-  special functions: x log-spaced on [1e-8, 1e8] (quick 48 / thorough 400 points per decade, multiplied by a seeded
+  special functions: x log-spaced on [1e-8, 1e8] (quick 48 / thorough 1000 points per decade, multiplied by a seeded
      jitter), plus both floating-point neighbours of every series cut-off in the code (1e-5, 8.5 for digamma; 1e-4, 5
      for trigamma), small integers and half-integers;  (p, q) on a log-spaced grid over [1e-8, 1e8]^2
-     (quick 49 x 49, thorough 129 x 129, jittered).
-  mom: mean 10^[-8,8] x shape 10^[-5,7] (variance = mean^2 / shape);   quick 33 x 25, thorough 65 x 49.
+     (quick 49 x 49, thorough 193 x 193, jittered).
+  mom: mean 10^[-8,8] x shape 10^[-5,7] (variance = mean^2 / shape);   quick 33 x 25, thorough 129 x 97.
   kl : (shape 10^[-6,8] x rate 10^[-6,6]) turned into exact (mean, mean log) by mpmath, plus free pairs with
        Jensen gap log(mean) - meanlog in 10^[-9,6]; both sides of the short-cut threshold alpha = 1e4.
   iqr: quantile pairs {(.25,.75),(.05,.95),(.025,.975),(.4,.6),(.1,.5),(.3,.9)} x true shape 10^[-2, 4.2] x scale
@@ -155,7 +155,7 @@ def _lattice_1d(rng, per_decade, lo=-8, hi=8):
 
 
 def special_functions(rep, hyp, rng, thorough, worst):
-    per = 400 if thorough else 48
+    per = 1000 if thorough else 48
     xs = list(_lattice_1d(rng, per))
     for c in (1e-5, 8.5, 1e-4, 5.0):
         xs += [c, float(np.nextafter(c, 0)), float(np.nextafter(c, np.inf)), c * (1 - 1e-9), c * (1 + 1e-9)]
@@ -176,7 +176,7 @@ def special_functions(rep, hyp, rng, thorough, worst):
         worst.add("_trigamma", e, x)
         clause = "known-trigamma-small-argument-cutoff" if 2e-5 < x <= 1e-4 else "trigamma-matches-reference"
         rep.case(clause, e <= TOL, key=("psi1", x), input=inp, observed=float(o), expected={"psi1": float(r1), "tol": TOL})
-    n = 129 if thorough else 49
+    n = 193 if thorough else 49
     ps = 10.0 ** np.linspace(-8, 8, n) * np.exp(rng.uniform(-0.4, 0.4, n) * math.log(10) * 16 / (n - 1))
     qs = 10.0 ** np.linspace(-8, 8, n) * np.exp(rng.uniform(-0.4, 0.4, n) * math.log(10) * 16 / (n - 1))
     ps, qs = np.clip(ps, 1e-8, 1e8), np.clip(qs, 1e-8, 1e8)
@@ -208,7 +208,7 @@ def _fit(f, err_type, *args):
 
 def fit_mom(rep, approx, rng, thorough, worst):
     E = approx.KLMinimizationFailedError
-    nm, ns = (65, 49) if thorough else (33, 25)
+    nm, ns = (129, 97) if thorough else (33, 25)
     fails = 0
     for lm in np.linspace(-8, 8, nm):
         for ls in np.linspace(-5, 7, ns):
@@ -272,7 +272,7 @@ def _kl_check(rep, approx, worst, x, logx, tag, counters):
 def fit_kl(rep, approx, rng, thorough, worst):
     E = approx.KLMinimizationFailedError
     counters = {"failed": 0}
-    na, nb = (113, 13) if thorough else (43, 7)
+    na, nb = (225, 13) if thorough else (43, 7)
     shapes = list(10.0 ** np.linspace(-6, 8, na) * np.exp(rng.uniform(-0.2, 0.2, na)))
     shapes += [9.9e3, 9.99e3, 1e4, 1.0001e4, 1.001e4, 1.1e4, 1.0, 1e-5, 8.5, 5.0]  # short-cut threshold, series cut-offs
     for al in shapes:
@@ -284,7 +284,7 @@ def fit_kl(rep, approx, rng, thorough, worst):
             if not math.log(x) > logx:  # the Jensen gap is below double resolution: not a valid pair any more
                 continue
             _kl_check(rep, approx, worst, x, logx, "gamma(%.6g,%.6g)" % (al, be), counters)
-    ng = 61 if thorough else 31
+    ng = 121 if thorough else 31
     for lg in np.linspace(-9, 6, ng):
         for lx in (-5.0, 0.0, 4.0):
             x = float(10.0 ** (lx + rng.uniform(-0.5, 0.5)))
@@ -395,7 +395,7 @@ def run(req, rep):
                  "approximate_gamma_kl on exact (mean, mean log) of gamma(shape 10^[-6,8], rate 10^[-6,6]) and free Jensen gaps "
                  "10^[-9,6]; approximate_gamma_iqr on exact quantiles of gamma(shape 10^[-2,4.2]) x 6 quantile pairs x 4 caps x 3 "
                  "scales, free ratios and x2 == x1; invalid inputs; oracle mpmath at 40 digits")
-    rep.bound = ("thorough: 6400 + 61 points (psi), 129x129 (betaln), 65x49 (mom), 123x13 + 183 (kl), 6x(53x4+26) (iqr)" if thorough
+    rep.bound = ("thorough: 16001 + 61 points (psi), 193x193 (betaln), 129x97 (mom), 235x13 + 363 (kl), 6x(53x4+26) (iqr)" if thorough
                  else "quick: 769 + 61 points (psi), 49x49 (betaln), 33x25 (mom), 53x7 + 93 (kl), 4x(20x2+8) (iqr)")
     rep.exhaustive = False
     worst = Worst()
